@@ -8,27 +8,10 @@
 From Coq Require Import List ZArith NArith String Bool Lia.
 From SCC Require Import Base.Sexp Lang.CoreSyn Sem.AxSem Sem.CoreSem Model.Backend Model.Uniquify Model.Focus
      Model.FocusCheck Proof.FocusKont Proof.FocusRel Proof.FocusMono Proof.FocusSim Proof.FocusStep Proof.FocusMain.
+From SCC Require Import Model.FocusGuard.
 Import ListNotations.
 Open Scope list_scope.
 Open Scope N_scope.
-
-(* no kind clash during the first [fuel] transitions *)
-Fixpoint clash_free (ps : cprog) (fuel : nat) (c : config) : bool :=
-  match fuel with
-  | O => true
-  | S f =>
-      negb (clash_config ps c) &&
-      match cstep ps c with
-      | SNext c' => clash_free ps f c'
-      | SPrint _ _ c' => clash_free ps f c'
-      | SHalt _ => true
-      end
-  end.
-Definition clash_free_prog (fuel : nat) (p : cprog) (args : list Z) : bool :=
-  match cpdefs p with
-  | d :: _ => match centry_env d args with Some e => clash_free p fuel (Run (cdbody d) e) | None => true end
-  | [] => true
-  end.
 
 Definition good_end (o : outcome) : Prop := match o with OExit _ | OUndef _ => True | _ => False end.
 
